@@ -180,6 +180,12 @@ def exhaustive(tier):
                 if route == "iadd-own-value" and kind not in ("list", "typed-list"):
                     continue
                 yield {"mode": "same-as-default", "kind": kind, "place": place, "route": route}
+    # a constant list / dict default, empty or not, EDITED IN PLACE through one configuration: every other configuration
+    # (built before or after the edit) and every reset still expose the declared default
+    for kind in ("list", "typed-list", "dict", "typed-dict", "keyed-dict"):
+        for size in (0, 1, 3):
+            for place in ("root", "nested", "list-item"):
+                yield {"mode": "edited-default", "kind": kind, "size": size, "place": place}
 
 
 def _same_as_default_case(case, R):
@@ -233,6 +239,76 @@ def _same_as_default_case(case, R):
     R.check(cc.is_value_defined(owner, "f") is True, "defined-iff", "same-as-default:" + route,
             lambda: "%s given its own default value %r through %s: not reported user-defined" % (".".join(path), value, route))
     R.check(cc.is_value_defined(cfg, "other") is False, "defined-iff", "same-as-default:others", "another field became user-defined")
+
+
+def _edited_default_case(case, R):
+    cc = sandbox._state["cc"]
+    kind, size, place = case["kind"], case["size"], case["place"]
+    is_list = kind.endswith("list")
+    declared = [10, 20, 30][:size] if is_list else dict([("a", 1), ("b", 2), ("c", 3)][:size])
+    literal = type(declared)(declared)  # the object handed to the field; ``declared`` is never shared with the library
+    field = {"list": lambda: cc.ListField(default=literal), "typed-list": lambda: cc.ListField(cc.IntField(), default=literal),
+             "dict": lambda: cc.DictField(default=literal), "typed-dict": lambda: cc.DictField(cc.StringField(), cc.IntField(), default=literal),
+             "keyed-dict": lambda: cc.DictField(cc.StringField(), default=literal)}[kind]()
+    schema = cc.Schema()
+    schema.other = cc.IntField(default=7)
+    if place == "root":
+        schema.f = field
+        owner = lambda cfg: cfg
+    elif place == "nested":
+        schema.a.b.f = field
+        owner = lambda cfg: cfg.a.b
+    else:
+        item = cc.Schema()
+        item.f = field
+        item.tag = cc.StringField()
+        schema.rows = cc.ListField(item)
+        owner = lambda cfg: cfg.rows[0]
+    R.label("edited-default", "edited-default:" + ("empty" if not size else "non-empty"))
+    R.nontrivial = True
+
+    def build():
+        cfg = schema()
+        if place == "list-item":
+            cfg.rows = [{"tag": "t"}]
+        return cfg
+
+    def shows(cfg):
+        v = owner(cfg).f
+        return v is not None and (list(v) if is_list else dict(v)) == declared
+
+    def edit(cfg, n):
+        v = owner(cfg).f
+        if is_list:
+            v.append(100 + n)
+            v += [200 + n]
+            v.insert(0, 300 + n)
+        else:
+            v["k%d" % n] = 100 + n
+            v.update({"u%d" % n: 200 + n})
+            v.setdefault("s%d" % n, 300 + n)
+    sig = "edited-default:%s:%s" % (kind, "empty" if not size else "non-empty")
+    early = build()
+    first = build()
+    if not R.check(shows(first) and shows(early), "fresh-default", sig + ":first", lambda: "a fresh configuration shows %r, declared default %r" % (owner(first).f, declared)):
+        return
+    edit(first, 1)
+    if shows(first):
+        R.label("edited-default:edit-not-visible")  # (reads hand out copies: nothing to observe, not a C12 matter)
+    R.check(cc.is_value_defined(owner(early), "f") is False and shows(early), "fresh-default", sig + ":earlier-config",
+            lambda: "editing one configuration's default value in place changed a configuration built earlier: %r (declared %r)" % (owner(early).f, declared))
+    second = build()
+    R.check(shows(second), "fresh-default", sig + ":later-config",
+            lambda: "after another configuration's default value was edited in place, a new configuration shows %r (declared %r)" % (owner(second).f, declared))
+    cc.reset_value(owner(first), "f")
+    R.check(shows(first), "reset", sig, lambda: "reset after an in-place edit restores %r (declared %r)" % (owner(first).f, declared))
+    R.check(cc.is_value_defined(owner(first), "f") is False, "reset", sig + ":defined", "user-defined after reset")
+    edit(first, 2)
+    cc.reset_value(owner(second), "f")
+    R.check(shows(second), "reset", sig + ":other", lambda: "reset of one configuration after ANOTHER one's value was edited in place restores %r (declared %r)" % (owner(second).f, declared))
+    third = build()
+    R.check(shows(third), "fresh-default", sig + ":third-config", lambda: "a third configuration shows %r (declared %r)" % (owner(third).f, declared))
+    R.check(first.other == 7 and second.other == 7, "reset", "edited-default:others", "another field changed")
 
 
 def _nth(kind, n):
@@ -336,6 +412,8 @@ def _varying_case(case, R):
 def run_case(case, R):
     if case.get("mode") == "varying-default":
         return _varying_case(case, R)
+    if case.get("mode") == "edited-default":
+        return _edited_default_case(case, R)
     if case.get("mode") == "same-as-default":
         return _same_as_default_case(case, R)
     cc = sandbox._state["cc"]
